@@ -431,6 +431,16 @@ def e2e_worker(case):
                 for b in desc["builds"].values():
                     b["alleles"][nm] = [list(gendb._to_genome(b, N, i, op))]
             open(y, "w").write(gendb._yaml(desc))
+        if case.get("plant_edge"):
+            N = len(desc["refseq"])
+            i = N - 1
+            ref = desc["refseq"][i]
+            sop = f"{ref}>{[c for c in 'ACGT' if c != ref][case['dbseed'] % 3]}"
+            desc["alleles"]["82.001"] = {"kind": "normal", "brk": None, "variants": [[i, sop, "-", "functional"]], "label": None,
+                                         "major": "82", "functional": [[i, sop]]}
+            for b in desc["builds"].values():
+                b["alleles"]["82.001"] = [list(gendb._to_genome(b, N, i, sop))]
+            open(y, "w").write(gendb._yaml(desc))
         if gendb.selfcheck(y, desc):
             return dict(out, skipped="selfcheck")
         norm = [a for a, v in desc["alleles"].items() if v["kind"] == "normal"]
@@ -441,6 +451,8 @@ def e2e_worker(case):
             alleles = [rng.choice(norm) for _ in range(max(2, case["n_copies"]))]
         if case.get("plant_same_site"):
             alleles = ["80.001", "81.001"]
+        elif case.get("plant_edge"):
+            alleles = ["82.001"] + alleles[1:]
         out["alleles"] = alleles
         kinds_planted = {("ins" if v[1].startswith("ins") else "del" if v[1].startswith("del") else "sub") for al in alleles for v in desc["alleles"][al]["variants"]}
         out["planted_has_insertion"] = "ins" in kinds_planted
@@ -490,6 +502,12 @@ def generated_stream(chk, n, timeout_s):
         c = gen_case(rng, f"same-site-{k}")
         c.update(strands=rng.choice(["+-", "-+"]) if k < 6 else rng.choice(["++", "--"]), friendly=(k % 2 == 0), evidence="mirrored",
                  plant_same_site=True, n_copies=2, phase=(k % 3 == 0), indelpost=(k % 2 == 0))
+        cases.append(c)
+    for k in range(min(4, n)):
+        # an allele defined by a substitution on the LAST base of the RefSeq mapping (the first aligned genome base on one strand, the
+        # last on the other): the borders of the RefSeq window are where the coordinate handling of the two builds differs
+        c = gen_case(rng, f"edge-{k}")
+        c.update(strands=["+-", "-+", "++", "--"][k], friendly=True, plant_edge=True, n_copies=2, indelpost=(k % 2 == 0))
         cases.append(c)
     ctx = mp.get_context("fork")
     results = []
